@@ -160,3 +160,262 @@ Proof.
   - apply ixor_assign_spec; auto.
   - rewrite Z.lxor_comm. apply ixor_assign_spec; auto.
 Qed.
+
+(** ** scalar +1 / -1 used by Not and by the floor adjustment of >> *)
+Lemma uadd_digit_spec ap a s : addsub_ok ap = true -> canon a -> 0 < s < B ->
+  uadd_digit ap a s = Ret (enc (val a + s)).
+Proof.
+  intros Hp Hc Hs. unfold uadd_digit. destruct (Z.eqb_spec s 0); [lia|].
+  set (a0 := match a with [] => [0] | _ => a end).
+  assert (Ha0 : wf a0 /\ val a0 = val a /\ (1 <= length a0)%nat /\ (a <> [] -> a0 = a) /\ (a = [] -> a0 = [0])).
+  { unfold a0. destruct a as [|d a'].
+    - split; [apply wf_cons; split; [unfold digit; pose proof B_pos; lia|apply wf_nil]|].
+      split; [reflexivity|]. split; [cbn; lia|]. split; [congruence|reflexivity].
+    - split; [apply Hc|]. split; [reflexivity|]. split; [cbn; lia|]. split; [intros _; reflexivity|intros E; discriminate]. }
+  destruct Ha0 as (Hw0 & Hv0 & Hl0 & En & Ee).
+  assert (Hws : wf [s]) by (apply wf_cons; split; [unfold digit; lia|apply wf_nil]).
+  destruct (add2c_spec ap a0 [s] Hp Hw0 Hws ltac:(cbn [length]; lia)) as (a' & c & E & Hw' & Hl' & Hc' & Hv').
+  rewrite E. cbn [bind]. f_equal. rewrite val_single in Hv'.
+  set (P := B ^ Z.of_nat (length a0)) in *. assert (HP : 0 < P) by (apply B_pow; lia).
+  destruct Hc' as [-> | ->]; cbn [Z.eqb].
+  - symmetry. replace (val a + s) with (val a') by lia. apply enc_of_canon.
+    apply canon_of_lower; [exact Hw'|destruct a'; [cbn in Hl'; lia|discriminate]|].
+    rewrite Hl'. destruct a as [|d a2].
+    + rewrite (Ee eq_refl) in *. cbn [length Z.of_nat]. replace (1 - 1) with 0 by ring. rewrite Z.pow_0_r.
+      cbn [val] in *. lia.
+    + rewrite (En ltac:(discriminate)) in *. pose proof (canon_lower _ Hc ltac:(discriminate)). lia.
+  - symmetry. replace (val a + s) with (val (a' ++ [1])) by (rewrite val_snoc, Hl'; fold P; lia).
+    apply enc_of_canon. apply canon_app_last; [exact Hw'|unfold digit; pose proof B_gt1; lia|lia].
+Qed.
+
+Lemma usub_digit_spec ap a s : addsub_ok ap = true -> wf a -> 0 <= s < B -> s <= val a ->
+  usub_digit ap a s = Ret (enc (val a - s)).
+Proof.
+  intros Hp Ha Hs Hle. unfold usub_digit.
+  assert (Hws : wf [s]) by (apply wf_cons; split; [unfold digit; lia|apply wf_nil]).
+  destruct (sub2_spec ap a [s] Hp Ha Hws) as [Hge _]. rewrite val_single in Hge.
+  destruct (Hge Hle) as (r & E & Hw & _ & Hv). rewrite E. cbn [bind]. f_equal.
+  rewrite <- Hv. symmetry. apply enc_strip. exact Hw.
+Qed.
+
+(** ** Not *)
+Theorem inot_spec ap x : addsub_ok ap = true -> icanon x -> inot ap x = Ret (ienc (- ival x - 1)).
+Proof.
+  intros Hp Hx. unfold inot. pose proof B_gt1.
+  destruct (isplit x Hx) as [(Sx & Mx & Vx) | [(Sx & Mx & Vx & Px) | (Sx & Mx & Vx & Px)]]; rewrite Sx, Vx.
+  - rewrite uadd_digit_spec by (auto; apply Hx || lia). cbn [bind]. f_equal.
+    rewrite Mx, val_nil. reflexivity.
+  - rewrite uadd_digit_spec by (auto; apply Hx || lia). cbn [bind]. f_equal.
+    rewrite (mk_sign_enc Minus) by (lia || discriminate). f_equal; cbn [sign_z]; ring.
+  - rewrite usub_digit_spec by (auto; apply Hx || lia). cbn [bind]. f_equal.
+    rewrite mk_plus_enc by lia. f_equal; ring.
+Qed.
+Theorem inot_ref_spec ap x : addsub_ok ap = true -> icanon x -> inot_ref ap x = Ret (ienc (- ival x - 1)).
+Proof.
+  intros Hp Hx. unfold inot_ref. pose proof B_gt1.
+  destruct (isplit x Hx) as [(Sx & Mx & Vx) | [(Sx & Mx & Vx & Px) | (Sx & Mx & Vx & Px)]]; rewrite Sx, Vx.
+  - reflexivity.
+  - rewrite uadd_digit_spec by (auto; apply Hx || lia). cbn [bind]. f_equal.
+    rewrite of_biguint_enc by lia. rewrite ineg_spec by apply ienc_canon. rewrite ienc_val. f_equal; ring.
+  - rewrite usub_digit_spec by (auto; apply Hx || lia). cbn [bind]. f_equal.
+    rewrite of_biguint_enc by lia. f_equal; ring.
+Qed.
+
+(** ** shifts *)
+Lemma zdigits_ival x : icanon x -> zdigits (ival x) = zlen (mag x).
+Proof.
+  intros Hx. rewrite <- (zdigits_val (mag x)) by apply Hx. unfold zdigits.
+  isplit3 x Hx; rewrite V; rewrite ?M, ?val_nil; try reflexivity.
+  rewrite Z.abs_opp. destruct (Z.eqb_spec (- val (mag x)) 0), (Z.eqb_spec (val (mag x)) 0); try lia; reflexivity.
+Qed.
+
+Lemma spec_shl_ival x s : icanon x ->
+  spec_shl (ival x) s = omap (fun v => sign_z (sg x) * v) (spec_shl (val (mag x)) s).
+Proof.
+  intros Hx. unfold spec_shl. destruct (s <? 0); [reflexivity|].
+  rewrite (zdigits_ival x Hx), (zdigits_val (mag x)) by apply Hx.
+  isplit3 x Hx; rewrite V, S; rewrite ?M, ?val_nil; cbn [sign_z Z.eqb omap bind]; try reflexivity.
+  - destruct (Z.eqb_spec (val (mag x)) 0); [lia|]. destruct (_ && _); cbn [omap bind]; [reflexivity|]. f_equal. ring.
+  - destruct (Z.eqb_spec (val (mag x)) 0), (Z.eqb_spec (- val (mag x)) 0); try lia.
+    destruct (_ && _); cbn [omap bind]; [reflexivity|]. f_equal. ring.
+Qed.
+
+Lemma shl_nonneg v s : 0 <= v -> match spec_shl v s with Ret r => 0 <= r /\ (0 < v -> 0 < r) | _ => True end.
+Proof.
+  intros Hv. unfold spec_shl. destruct (Z.ltb_spec s 0); [exact I|]. destruct (Z.eqb_spec v 0); [split; lia|].
+  destruct (_ && _); [exact I|]. assert (0 < 2 ^ s) by (apply Z.pow_pos_nonneg; lia). split; nia.
+Qed.
+
+Theorem ishl_spec x s : icanon x -> ishl x s = omap ienc (spec_shl (ival x) s).
+Proof.
+  intros Hx. unfold ishl. rewrite biguint_shl_spec by apply Hx. rewrite (spec_shl_ival x s Hx).
+  pose proof (shl_nonneg (val (mag x)) s (val_nonneg _ (proj1 (proj1 Hx)))) as H.
+  destruct (spec_shl (val (mag x)) s) as [r| |]; cbn [omap bind]; try reflexivity.
+  f_equal. rewrite from_biguint_ienc by apply enc_canon. rewrite enc_val by apply H. reflexivity.
+Qed.
+
+Theorem ishl_assign_spec x s : icanon x -> ishl_assign x s = omap ienc (spec_shl (ival x) s).
+Proof.
+  intros Hx. unfold ishl_assign. rewrite biguint_shl_spec by apply Hx. rewrite (spec_shl_ival x s Hx).
+  pose proof (shl_nonneg (val (mag x)) s (val_nonneg _ (proj1 (proj1 Hx)))) as H.
+  destruct (spec_shl (val (mag x)) s) as [r| |] eqn:E; cbn [omap bind]; try reflexivity.
+  f_equal. isplit3 x Hx; rewrite S.
+  - unfold spec_shl in E. rewrite M, val_nil in E. destruct (s <? 0); [discriminate|].
+    cbn [Z.eqb] in E. injection E as <-. reflexivity.
+  - apply mk_sign_enc; [apply H; exact P|discriminate].
+  - apply mk_sign_enc; [apply H; exact P|discriminate].
+Qed.
+
+(** floor division of a negative value *)
+Lemma floor_neg v k : 0 < k -> 0 <= v -> (- v) / k = - (v / k + (if v mod k =? 0 then 0 else 1)).
+Proof.
+  intros Hk Hv. pose proof (Z.div_mod v k ltac:(lia)) as D. pose proof (Z.mod_pos_bound v k Hk) as M.
+  destruct (Z.eqb_spec (v mod k) 0) as [E|E].
+  - symmetry. apply Z.div_unique with 0; nia.
+  - symmetry. apply Z.div_unique with (k - v mod k); [lia|nia].
+Qed.
+
+Lemma is_tz_mod v z s : is_tz v z -> 0 <= s -> (v mod 2 ^ s = 0 <-> s <= z).
+Proof.
+  intros (H0 & T & L) Hs. split.
+  - intros E. destruct (Z.le_gt_cases s z) as [|Hlt]; [assumption|].
+    assert (Z.testbit (v mod 2 ^ s) z = true) by (rewrite Z.mod_pow2_bits_low by lia; exact T).
+    rewrite E, Z.bits_0 in H. discriminate.
+  - intros Hle. apply Z.bits_inj'; intros n Hn. rewrite Z.bits_0.
+    destruct (Z.lt_ge_cases n s); [rewrite Z.mod_pow2_bits_low by lia; apply L; lia|apply Z.mod_pow2_bits_high; lia].
+Qed.
+
+Lemma tz_bound a z : wf a -> utrailing_zeros a = Some z -> 0 <= z < 64 * zlen a.
+Proof.
+  intros Ha E. pose proof (utrailing_zeros_meaning a z Ha E) as (H0 & T & _). split; [exact H0|].
+  destruct (Z.lt_ge_cases z (64 * zlen a)); [assumption|].
+  pose proof (val_bound a Ha) as Hb. rewrite B_pow_pow2 in Hb by lia. fold (zlen a) in Hb.
+  rewrite (testbit_small (val a) (64 * zlen a) z) in T by (unfold zlen in *; lia). discriminate.
+Qed.
+
+Lemma shr_round_down_spec p x s : bits_ok p = true -> icanon x -> vec_ok (mag x) -> 0 <= s ->
+  shr_round_down p x s = Ret (if sign_eqb (sg x) Minus then negb (val (mag x) mod 2 ^ s =? 0) else false).
+Proof.
+  intros Hp Hx Hv Hs. apply bits_ok_inv in Hp; subst p. unfold shr_round_down.
+  isplit3 x Hx; rewrite S; cbn [sign_eqb]; try reflexivity.
+  rewrite utrailing_zeros_spec by apply Hx. unfold spec_trailing_zeros.
+  destruct (Z.eqb_spec (val (mag x)) 0); [lia|].
+  pose proof (utrailing_zeros_spec (mag x) (proj1 (proj1 Hx))) as E. unfold spec_trailing_zeros in E.
+  destruct (Z.eqb_spec (val (mag x)) 0); [lia|].
+  pose proof (utrailing_zeros_meaning _ _ (proj1 (proj1 Hx)) E) as T.
+  pose proof (tz_bound _ _ (proj1 (proj1 Hx)) E) as Bz.
+  pose proof (is_tz_mod _ _ s T Hs) as Hm. f_equal. cbn [bp_round_pos bp_round bits_default cmp_eval].
+  unfold vec_ok in Hv. pose proof B_val. change (2 ^ 58) with 288230376151711744 in Hv.
+  destruct (Z.eqb_spec (val (mag x) mod 2 ^ s) 0) as [E0|E0]; cbn [negb].
+  - assert (s <= ztz (val (mag x))) by (apply Hm; exact E0).
+    destruct (Z.gtb_spec s 0); cbn [andb]; [|reflexivity].
+    destruct (Z.leb_spec s (B - 1)); [|lia]. destruct (Z.ltb_spec (ztz (val (mag x))) s); [lia|reflexivity].
+  - assert (~ s <= ztz (val (mag x))) by (intros H'; apply Hm in H'; contradiction).
+    destruct (Z.gtb_spec s 0); cbn [andb]; [|lia].
+    destruct (Z.leb_spec s (B - 1)); [|reflexivity]. destruct (Z.ltb_spec (ztz (val (mag x))) s); [reflexivity|lia].
+Qed.
+
+Lemma shr_sem x s : icanon x -> 0 <= s ->
+  ival x / 2 ^ s =
+  sign_z (sg x) * (val (mag x) / 2 ^ s +
+                   (if sign_eqb (sg x) Minus && negb (val (mag x) mod 2 ^ s =? 0) then 1 else 0)).
+Proof.
+  intros Hx Hs. assert (0 < 2 ^ s) by (apply Z.pow_pos_nonneg; lia).
+  isplit3 x Hx; rewrite V, S; cbn [sign_z sign_eqb andb].
+  - rewrite M, val_nil. rewrite Z.div_0_l by lia. reflexivity.
+  - ring.
+  - rewrite floor_neg by lia. destruct (_ =? 0); cbn [negb]; ring.
+Qed.
+
+Lemma tz_some a : wf a -> 0 < val a -> utrailing_zeros a = Some (ztz (val a)).
+Proof.
+  intros Ha Hp. rewrite utrailing_zeros_spec by exact Ha. unfold spec_trailing_zeros.
+  destruct (Z.eqb_spec (val a) 0); [lia|reflexivity].
+Qed.
+
+Lemma from_biguint_enc sgn n : 0 <= n -> from_biguint sgn (enc n) = ienc (sign_z sgn * n).
+Proof. intros Hn. rewrite from_biguint_ienc by apply enc_canon. rewrite enc_val by exact Hn. reflexivity. Qed.
+
+Lemma shr_round_down_ret p x s : bits_ok p = true -> icanon x -> exists r, shr_round_down p x s = Ret r.
+Proof.
+  intros Hp Hx. unfold shr_round_down. isplit3 x Hx; rewrite S; eauto.
+  rewrite tz_some by (apply Hx || exact P). eauto.
+Qed.
+
+Theorem ishr_spec p ap x s : bits_ok p = true -> addsub_ok ap = true -> icanon x -> vec_ok (mag x) ->
+  ishr p ap x s = omap ienc (spec_shr (ival x) s).
+Proof.
+  intros Hp Hap Hx Hv. unfold ishr, spec_shr. destruct (Z.ltb_spec s 0) as [Hs|Hs].
+  - destruct (shr_round_down_ret p x s Hp Hx) as [r ->]. cbn [bind].
+    unfold biguint_shr. destruct (Z.ltb_spec s 0); [reflexivity|lia].
+  - rewrite shr_round_down_spec by assumption. cbn [bind omap].
+    rewrite biguint_shr_spec by (apply Hx || exact Hv). unfold spec_shr. destruct (Z.ltb_spec s 0); [lia|].
+    cbn [omap bind]. assert (0 < 2 ^ s) by (apply Z.pow_pos_nonneg; lia).
+    assert (Hn : 0 <= val (mag x) / 2 ^ s) by (apply Z.div_pos; [apply val_nonneg; apply Hx|lia]).
+    rewrite (shr_sem x s Hx Hs). pose proof B_gt1.
+    destruct (sign_eqb (sg x) Minus); cbn [andb].
+    + destruct (negb _).
+      * rewrite uadd_digit_spec by (auto using enc_canon; lia). cbn [bind]. rewrite enc_val by exact Hn.
+        f_equal. apply from_biguint_enc. lia.
+      * cbn [bind]. f_equal. rewrite Z.add_0_r. apply from_biguint_enc. exact Hn.
+    + cbn [bind]. f_equal. rewrite Z.add_0_r. apply from_biguint_enc. exact Hn.
+Qed.
+
+Theorem ishr_assign_spec p ap x s : bits_ok p = true -> addsub_ok ap = true -> icanon x -> vec_ok (mag x) ->
+  ishr_assign p ap x s = omap ienc (spec_shr (ival x) s).
+Proof.
+  intros Hp Hap Hx Hv. unfold ishr_assign, spec_shr. destruct (Z.ltb_spec s 0) as [Hs|Hs].
+  - destruct (shr_round_down_ret p x s Hp Hx) as [r ->]. cbn [bind].
+    unfold biguint_shr. destruct (Z.ltb_spec s 0); [reflexivity|lia].
+  - rewrite shr_round_down_spec by assumption. cbn [bind omap].
+    rewrite biguint_shr_spec by (apply Hx || exact Hv). unfold spec_shr. destruct (Z.ltb_spec s 0); [lia|].
+    cbn [omap bind]. assert (0 < 2 ^ s) by (apply Z.pow_pos_nonneg; lia).
+    assert (Hn : 0 <= val (mag x) / 2 ^ s) by (apply Z.div_pos; [apply val_nonneg; apply Hx|lia]).
+    rewrite (shr_sem x s Hx Hs). pose proof B_gt1.
+    assert (Hplain : {| sg := if is_nil (enc (val (mag x) / 2 ^ s)) then NoSign else sg x;
+                        mag := enc (val (mag x) / 2 ^ s) |} = ienc (sign_z (sg x) * (val (mag x) / 2 ^ s))).
+    { rewrite is_nil_enc by exact Hn. destruct (Z.eqb_spec (val (mag x) / 2 ^ s) 0) as [E|E].
+      - rewrite E, Z.mul_0_r. reflexivity.
+      - apply mk_sign_enc; [lia|]. intros S0. isplit3 x Hx; try congruence.
+        rewrite M, val_nil, Z.div_0_l in E by lia. lia. }
+    destruct (sign_eqb (sg x) Minus) eqn:Es; cbn [andb].
+    + destruct (negb _).
+      * rewrite uadd_digit_spec by (auto using enc_canon; lia). cbn [bind]. rewrite enc_val by exact Hn.
+        f_equal. apply mk_sign_enc; [lia|]. destruct (sg x); discriminate.
+      * f_equal. rewrite Z.add_0_r. exact Hplain.
+    + f_equal. rewrite Z.add_0_r. exact Hplain.
+Qed.
+
+(** ** bit *)
+Lemma testbit_neg v k i : is_tz v k -> 0 <= i ->
+  Z.testbit (- v) i = if i <? k then false else if i =? k then true else negb (Z.testbit v i).
+Proof.
+  intros T Hi. pose proof T as (H0 & _ & _). destruct (is_tz_decomp v k T) as [q ->].
+  replace (- ((2 * q + 1) * 2 ^ k)) with ((2 * (- q - 1) + 1) * 2 ^ k) by ring.
+  destruct (Z.ltb_spec i k); [apply Z.mul_pow2_bits_low; lia|].
+  rewrite !Z.mul_pow2_bits by lia. destruct (Z.eqb_spec i k) as [->|Hne].
+  - rewrite Z.sub_diag. apply Z.testbit_odd_0.
+  - replace (i - k) with (Z.succ (i - k - 1)) by lia. rewrite !Z.testbit_odd_succ by lia.
+    replace (- q - 1) with (Z.lnot q) by (unfold Z.lnot; lia). apply Z.lnot_spec. lia.
+Qed.
+
+Theorem ibit_spec p x i : bits_ok p = true -> icanon x -> 0 <= i ->
+  ibit p x i = Ret (Z.testbit (ival x) i).
+Proof.
+  intros Hp Hx Hi. apply bits_ok_inv in Hp; subst p. unfold ibit.
+  isplit3 x Hx; rewrite S, V.
+  - rewrite ubit_spec by (apply Hx || lia). rewrite M, val_nil. reflexivity.
+  - rewrite ubit_spec by (apply Hx || lia). reflexivity.
+  - cbn [bp_ibit_hi bits_default cmp_eval]. pose proof (proj1 (proj1 Hx)) as Hw.
+    pose proof (tz_some _ Hw P) as Et. pose proof (utrailing_zeros_meaning _ _ Hw Et) as T.
+    pose proof (tz_bound _ _ Hw Et) as Bz. rewrite Et. f_equal.
+    rewrite (testbit_neg _ _ i T Hi). rewrite ubit_spec by (exact Hw || lia).
+    destruct (Z.geb_spec i (64 * zlen (mag x))) as [Hge|Hlt].
+    + destruct (Z.ltb_spec i (ztz (val (mag x)))); [lia|]. destruct (Z.eqb_spec i (ztz (val (mag x)))); [lia|].
+      pose proof (val_bound _ Hw) as Hb. rewrite B_pow_pow2 in Hb by lia.
+      rewrite (testbit_small (val (mag x)) (64 * zlen (mag x)) i) by (unfold zlen in *; lia). reflexivity.
+    + destruct (Z.compare_spec i (ztz (val (mag x)))) as [E|E|E].
+      * subst i. rewrite Z.ltb_irrefl, Z.eqb_refl. reflexivity.
+      * destruct (Z.ltb_spec i (ztz (val (mag x)))); [reflexivity|lia].
+      * destruct (Z.ltb_spec i (ztz (val (mag x)))); [lia|]. destruct (Z.eqb_spec i (ztz (val (mag x)))); [lia|reflexivity].
+Qed.
